@@ -248,10 +248,18 @@ def _ladder(heat_present, cool_present, heating, cooling, cur, real):
     return "Idle"
 
 
-def _heater_case(res, combo, unit, hraw, craw, cur, real, setp):
+def _heater_case(res, combo, unit, hraw, craw, cur, real, setp, bg=0):
     s, pair, heater, em, aem = _ctx(combo)
     items = pair.items
-    blk = bytes(packs.BLOCK)
+    # the rest of the block: all zero, all ones, or pseudo-random - the neighbours of the flag / unit bit fields are not the
+    # heater's business
+    if bg == 0:
+        blk = bytes(packs.BLOCK)
+    elif bg == 1:
+        blk = b"\xff" * packs.BLOCK
+    else:
+        import hashlib
+        blk = b"".join(hashlib.blake2b(b"c14bg%d-%d" % (bg, i)).digest() for i in range(16))[:packs.BLOCK]
     blk = _set(blk, items["TempUnits"], _unit_raw(pair, unit))
     blk = _set(blk, items["DisplayedTempG"], cur)
     blk = _set(blk, items["RealSetPointG"], real)
@@ -324,9 +332,9 @@ def strategy(tier):
     n = len(_heater_combos())
     word = st.one_of(st.integers(0, 65535), st.integers(0, 1300), st.sampled_from([0, 1, 359, 360, 720, 65535]))
     heat = st.builds(
-        lambda ci, u, h, c, cur, d, sp: {"k": "heater", "ci": ci, "u": u, "h": h, "cd": c, "cur": cur, "d": d, "sp": sp},
+        lambda ci, u, h, c, cur, d, sp, bg: {"k": "heater", "ci": ci, "u": u, "h": h, "cd": c, "cur": cur, "d": d, "sp": sp, "bg": bg},
         st.integers(0, n - 1), st.sampled_from(["C", "F"]), st.integers(0, 3), st.integers(0, 1), word,
-        st.sampled_from([-300, -1, 0, 0, 1, 300]), word)
+        st.sampled_from([-300, -1, 0, 0, 1, 300]), word, st.integers(0, 40))
     other = st.builds(
         lambda ci, u, ti, raw: {"k": "rawgen", "ci": ci, "u": u, "ti": ti, "raw": raw},
         st.integers(0, n - 1), st.sampled_from(["C", "F"]), st.integers(0, 50), st.integers(0, 65535))
@@ -358,7 +366,8 @@ def run_case(case) -> Result:
                 for c in (0, 1):
                     for cur, real in ((600, 700), (700, 700), (700, 600), (0, 65535)):
                         for setp in (real, 650):
-                            _heater_case(res, combo, unit, h, c, cur, real, setp)
+                            for bg in (0, 1, 2 + (n % 5)):
+                                _heater_case(res, combo, unit, h, c, cur, real, setp, bg)
                             n += 1
         res.nontrivial = True
         res.labels.append(("ladder_points_checked", n))
@@ -367,7 +376,7 @@ def run_case(case) -> Result:
         hc = _heater_combos()
         combo = hc[case["ci"] % len(hc)]
         real = min(65535, max(0, case["cur"] + case["d"]))
-        _heater_case(res, combo, case["u"], case["h"], case["cd"], case["cur"], real, case["sp"])
+        _heater_case(res, combo, case["u"], case["h"], case["cd"], case["cur"], real, case["sp"], int(case.get("bg", 0)))
         res.nontrivial = True
         res.label("gen-heater")
     elif k == "rawgen":
